@@ -48,9 +48,20 @@ def _profiles(rng, tier):
         yield p
 
 
+# unsigned and narrow element types only for non-negative profiles (round-2 seed: a shortcut that subtracts unsigned values)
+_DTYPES = ["int32", "int64", "float32", "float64", "uint8", "uint16", "int16", "uint32"]
+# modulus of the cost arithmetic (np.abs(a - b) wraps for unsigned element types); 0 = exact
+_WRAP = {"uint8": 2 ** 8, "uint16": 2 ** 16, "uint32": 2 ** 32}
+
+
+def _w(dtype):
+    return [_WRAP.get(dtype, 0)]
+
+
 def cases(tier, rng):
     for p in _profiles(rng, tier):
-        yield {"k": 1501, "args": [p], "call": {"op": 1501, "dtype": rng.choice(["int32", "int64", "float32", "float64"])}, "group": "fix1d"}
+        dt = rng.choice(_DTYPES if min(p) >= 0 else _DTYPES[:4])
+        yield {"k": 1501, "args": [p, _w(dt)], "call": {"op": 1501, "dtype": dt}, "group": "fix1d" + ("-unsigned" if dt in _WRAP else "")}
     # tree level, exhaustive small graphs
     maxn = 4 if tier == "quick" else 5
     for n in range(2, maxn + 1):
@@ -78,8 +89,9 @@ def cases(tier, rng):
             elv = [max(0, 2 * r + rng.choice([-3, -1, 0, 0, 0, 1, 4])) if (r is not None and r >= 0) else rng.randint(0, 9) for r in rk]
         via = rng.choice(["kernel", "vector", "raster"])
         sq = nets.topo_order(ds, rng) if via == "kernel" else nets.topo_order(ds)
-        yield {"k": 1502 if via == "kernel" else 1500, "args": [ds, sq, elv],
-               "call": {"op": 1502, "dtype": rng.choice(["int32", "float32", "float64", "int64"]), "via": via}, "group": f"adjust-rand-{via}"}
+        dt = rng.choice(_DTYPES if min(elv) >= 0 else _DTYPES[:4])
+        yield {"k": 1502 if via == "kernel" else 1500, "args": [ds, sq, elv, _w(dt)],
+               "call": {"op": 1502, "dtype": dt, "via": via}, "group": f"adjust-rand-{via}" + ("-unsigned" if dt in _WRAP else "")}
     # D4 digging
     for t in range(250 if tier == "quick" else 3000):
         nr, nc = rng.randint(2, 7), rng.randint(2, 7)
@@ -196,7 +208,7 @@ def post_checks(case, i):
         return
     a, op = case["args"], case["call"]["op"]
     if op == 1502:
-        yield ("adjust:api-differs-from-model", 1504, [a[0], i[1], a[2], i[0]])
+        yield ("adjust:api-differs-from-model", 1504, [a[0], i[1], a[2], i[0], _w(case["call"]["dtype"])])
     else:
         yield ("dig:api-differs-from-model", 1507, [a[0], i[2], a[2]] + a[3:9] + [i[1]])
 
